@@ -29,6 +29,14 @@ def run(ctx):
         return
     per_group, n_pres = (1, 2) if ctx.tier == "quick" else (3, 5)
     cases, disc = H.family(ctx, build["tables"], per_group, n_pres)
+    rep_cases, d2 = H.repeated_family(ctx, build["tables"], 40 if ctx.tier == "quick" else 400)
+    disc += d2
+    cases = cases + rep_cases
+    if not build["ok"]:
+        # a broken table clause about a normalizer: aim the pairs at crystals on which that entry matters
+        targeted, summ = H.targeted_cases(build, ctx.rng)
+        ctx.coverage["targeted_search"] = summ
+        cases = targeted + cases
     rows = H.run_impl(cases)
     by_id = {c["id"]: c for c in cases}
     failing, errors, n_terms = H.coq_ground_cases("c06gs", cases, rows)
@@ -55,6 +63,7 @@ def run(ctx):
     ctx.add_cases(n_terms + npairs, npairs, [{"sg": cases[0]["sg"], "presentations": [c["pres"] for c in groups[cases[0]["base"]]]}])
     ctx.coverage["input_distribution"] = {"crystals": len(groups), "presentations": len(cases), "pairs": npairs, "discarded": disc,
                                           "groups_covered": len({c["sg"] for c in cases}), "analyzer_errors": len(errs),
+                                          "repeated_species_crystals(one species on two orbits of a free position + one orbit of a swappable position)": len({c["base"] for c in rep_cases}),
                                           "pairs_where_spglib_number_differs": oracle_anomaly}
     ctx.coverage["rule"] = ("every crystal of the C05 family in its standard description and in re-presentations (rotation, translation in [-5,5], "
                             "permutation, unimodular shear, supercell |det|<=4, wrapped/unwrapped); a pair is non-trivial when both analyses succeeded")
